@@ -45,6 +45,7 @@ def action_class(body_, engine):
 def run(ck, facts, tier):
     from shared import clauses as _cl
     _cl.every_clause(ck, facts, "C04.EVERY-CLAUSE")
+    _cl.trivial_subst_kinds(ck, facts, "C04.FULFILL-APPLY")
     from shared import zippers
     zippers.answer_subst(ck, facts, "C04.ANSWER-SUBST")
     R = "C04.CLAUSE-SOURCES"
